@@ -640,6 +640,53 @@ M("c10-session-rollback", "C10", "src/ckl/interpreter.py",
                 raise''', "definitions of a failing call are rolled back")
 
 
+# ---- C11
+M("c11-no-underscore-filter-unqualified", "C11", "src/ckl/nodes.py",
+  '''        if self.unqualified:
+            for name in moduleEnv.getLocalSymbols():
+                if name.startswith("_"):
+                    continue  # skip private module symbols
+                environment.put(name, moduleEnv.get(name))''',
+  '''        if self.unqualified:
+            for name in moduleEnv.getLocalSymbols():
+                environment.put(name, moduleEnv.get(name))''',
+  "unqualified import binds private names too")
+M("c11-import-binds-all", "C11", "src/ckl/nodes.py",
+  '''                if name not in self.symbols:
+                    continue
+                environment.put(self.symbols[name], moduleEnv.get(name))''',
+  '''                environment.put(self.symbols.get(name, name),
+                                moduleEnv.get(name))''',
+  "import [..] binds every public symbol")
+M("c11-module-sees-importer", "C11", "src/ckl/nodes.py",
+  '''            moduleEnv = environment.getBase().newEnv()''',
+  '''            moduleEnv = environment.newEnv()''',
+  "module code runs in a child of the importer's environment")
+M("c11-cache-by-alias", "C11", "src/ckl/nodes.py",
+  '''        moduleidentifier = name
+        if not modulename:
+            modulename = name''', '''        moduleidentifier = name
+        if not modulename:
+            modulename = name
+        else:
+            moduleidentifier = modulename''',
+  "the module cache is keyed by the alias")
+M("c11-module-object-has-private", "C11", "src/ckl/nodes.py",
+  '''            for name in moduleEnv.getLocalSymbols():
+                if name.startswith("_"):
+                    continue  # skip private module symbols
+                val = moduleEnv.get(name)
+                if val.isObject() and val.isModule:
+                    continue  # do not re-modules!
+                obj.addItem(name, val)''',
+  '''            for name in moduleEnv.getLocalSymbols():
+                val = moduleEnv.get(name)
+                if val.isObject() and val.isModule:
+                    continue  # do not re-modules!
+                obj.addItem(name, val)''',
+  "module objects expose private names")
+
+
 def run(cmd, cwd, env=None, timeout=3600):
     t0 = time.time()
     try:
